@@ -63,6 +63,7 @@ type skipRes struct {
 	Panic  bool   `json:"panic"`
 	SrcErr bool   `json:"srcerr"`
 	Giant  bool   `json:"giant"` // asked its reader / the pool for far more than the input could ever hold
+	Over   bool   `json:"over"`  // asked the source for more after the last byte of the value had been handed out
 }
 
 var errGiant = errors.New("verif: giant request refused by the harness")
@@ -321,8 +322,98 @@ func runSkippers(b []byte, t int8, full bool, shapes int) []skipRes {
 		})
 		out = append(out, r)
 	}
+	// ... and on a live connection: the bytes of the value have arrived, what follows has not.  A skipper that asks its
+	// source for more than the value needs would block there (here the request is answered with an error and counted)
+	if n0 := out[0].N; out[0].Ok && n0 > 0 && n0 <= len(b) {
+		for k, chunks := range [][]int{{-1}, {1}, {3, 0, 7}} {
+			if k >= shapes {
+				break
+			}
+			name := []string{"fit", "1byte", "3-0-7"}[k] + "+nothing-more-has-arrived"
+			{
+				src := &exactSource{dataSource: dataSource{data: b[:n0], chunks: chunks}}
+				rd := bufiox.NewDefaultReader(src)
+				r := skipRes{Impl: "bufferreader", Shape: name, Ret: true}
+				protect(&r, func() {
+					br := thrift.NewBufferReader(rd)
+					err := br.Skip(t)
+					r.Ok, r.N, r.Used, r.Tid = err == nil, int(br.Readn()), rd.ReadLen(), tidOf(err)
+					br.Recycle()
+				})
+				r.Over = src.extra > 0
+				rd.Release(nil)
+				out = append(out, r)
+			}
+			{
+				src := &exactSource{dataSource: dataSource{data: b[:n0], chunks: chunks}}
+				rd := bufiox.NewDefaultReader(src)
+				r := skipRes{Impl: "skipdec", Shape: name}
+				protect(&r, func() {
+					d := thrift.NewSkipDecoder(rd)
+					buf, err := d.Next(t)
+					r.Ok, r.N, r.Used, r.Tid = err == nil, len(buf), rd.ReadLen(), tidOf(err)
+					r.Ret = len(buf) <= len(b) && bytes.Equal(buf, b[:len(buf)])
+					d.Release()
+				})
+				r.Over = src.extra > 0
+				rd.Release(nil)
+				out = append(out, r)
+			}
+			{
+				src := &exactSource{dataSource: dataSource{data: b[:n0], chunks: chunks}}
+				r := skipRes{Impl: "readerdec", Shape: name}
+				protect(&r, func() {
+					d := thrift.NewReaderSkipDecoder(src)
+					buf, err := d.Next(t)
+					r.Ok, r.N, r.Used, r.Tid = err == nil, len(buf), src.pos, tidOf(err)
+					r.Ret = len(buf) <= len(b) && bytes.Equal(buf, b[:len(buf)])
+					d.Release()
+				})
+				r.Over = src.extra > 0
+				out = append(out, r)
+			}
+		}
+	}
+	// ... and over a connection-like source: besides Read it has Len() / Buffered() in the sense connections give
+	// them - what is readable RIGHT NOW (here: at most 7 bytes) - not what is still to come.  A fresh decoder object
+	// (nothing buffered, nothing allocated) and a pooled one.
+	for k := 0; k < 2; k++ {
+		src := &connSource{dataSource: dataSource{data: b, chunks: []int{4096, 100, 7}}}
+		r := skipRes{Impl: "readerdec", Shape: []string{"conn-len-fresh", "conn-len-pooled"}[k]}
+		protect(&r, func() {
+			var d *thrift.ReaderSkipDecoder
+			if k == 0 {
+				d = &thrift.ReaderSkipDecoder{}
+				d.Reset(src)
+			} else {
+				d = thrift.NewReaderSkipDecoder(src)
+			}
+			buf, err := d.Next(t)
+			r.Ok, r.N, r.Used, r.Tid = err == nil, len(buf), src.pos, tidOf(err)
+			r.Ret = len(buf) <= len(b) && bytes.Equal(buf, b[:len(buf)])
+			r.SrcErr = wrapsSource(err, src.endErr())
+			if k == 1 {
+				d.Release()
+			}
+		})
+		out = append(out, r)
+	}
 	return out
 }
+
+// connSource: an io.Reader with the extra methods of a connection / buffered stream
+type connSource struct{ dataSource }
+
+func (s *connSource) now() int {
+	n := len(s.data) - s.pos
+	if n > 7 {
+		n = 7
+	}
+	return n
+}
+func (s *connSource) Len() int       { return s.now() }
+func (s *connSource) Buffered() int  { return s.now() }
+func (s *connSource) Available() int { return s.now() }
 
 // struct{1: bool true; 2: byte 7; 3: struct{}}: one-byte pieces everywhere
 var priorLifeBytes = []byte{2, 0, 1, 1, 3, 0, 2, 7, 12, 0, 3, 0, 0}
